@@ -1,2 +1,556 @@
-//! C06 — placeholder until the crash monitor is written.
-pub fn child_main(_mode: &str, _seed: u64) {}
+//! C06 — flushed data survives; a crash never exposes a half-applied write.
+//!
+//! A crash is a copy of the database file taken without committing (what the kernel keeps of a
+//! killed process). The reopened image must be one of the states a shadow instance of the real
+//! code passed through between the last acknowledged flush and the operation in progress.
+
+use std::{
+    collections::{BTreeMap, BTreeSet},
+    io::Write,
+    path::{Path, PathBuf},
+    sync::{Arc, Mutex},
+};
+
+use iroh_docs::{
+    store::{DownloadPolicy, FilterKind, Query, SortBy, SortDirection, Store},
+    AuthorId, Capability, ContentStatus, NamespaceId, SignedEntry,
+};
+use serde_json::json;
+
+use crate::{
+    ctx::Ctx,
+    gen::{author, content, namespace, ALPHABET},
+    model::{Model, E},
+    rng::{h64, Rng},
+    util::{block_on, dump, heads, Scratch},
+};
+
+#[derive(Clone, Debug)]
+pub enum Op {
+    Insert { doc: usize, author: usize, key: Vec<u8>, content: usize },
+    Delete { doc: usize, author: usize, key: Vec<u8> },
+    Remote { doc: usize, author: usize, key: Vec<u8>, back: u64, content: Option<usize> },
+    ImportAuthor(usize),
+    ImportDoc(usize),
+    Policy { doc: usize, n: usize },
+    Peer { doc: usize, peer: u8 },
+    Flush,
+    Scan { doc: usize },
+    RemoveDoc(usize),
+}
+
+impl Op {
+    fn commits(&self) -> bool {
+        matches!(self, Op::Flush | Op::Scan { .. })
+    }
+}
+
+pub fn gen_history(rng: &mut Rng, n: usize) -> Vec<Op> {
+    let mut ops = vec![Op::ImportDoc(0), Op::ImportAuthor(0), Op::ImportAuthor(1)];
+    let key = |rng: &mut Rng| -> Vec<u8> {
+        // short keys over a tiny alphabet: parents and children collide all the time
+        let l = rng.range(0, 3);
+        (0..l).map(|_| ALPHABET[2 + rng.below(2)]).collect()
+    };
+    for _ in 0..n {
+        let doc = if rng.chance(1, 5) { 1 } else { 0 };
+        ops.push(match rng.below(20) {
+            0..=7 => Op::Insert { doc, author: rng.below(2), key: key(rng), content: rng.below(4) },
+            8..=10 => Op::Delete { doc, author: rng.below(2), key: key(rng) },
+            11 | 12 => Op::Remote { doc, author: rng.below(3), key: key(rng), back: rng.below(4) as u64, content: if rng.chance(1, 4) { None } else { Some(rng.below(4)) } },
+            13 => Op::ImportDoc(1),
+            14 => Op::Policy { doc, n: rng.below(3) },
+            15 => Op::Peer { doc, peer: rng.below(7) as u8 },
+            16 | 17 => Op::Flush,
+            18 => Op::Scan { doc },
+            _ => {
+                if rng.chance(1, 3) {
+                    Op::RemoveDoc(1)
+                } else {
+                    Op::ImportAuthor(2)
+                }
+            }
+        });
+    }
+    ops
+}
+
+/// Apply one operation under the clock `t`. The result is deliberately ignored: whatever the
+/// store decides, the shadow decides the same.
+pub fn apply(store: &mut Store, op: &Op, t: u64) {
+    iroh_docs::verif::set_clock(t);
+    let nss = [namespace(1), namespace(2)];
+    match op {
+        Op::Insert { doc, author: a, key, content: c } => {
+            let id = nss[*doc].id();
+            if let Ok(mut r) = store.open_replica(&id) {
+                let (h, l) = content(*c);
+                let _ = block_on(r.insert(key, &author(*a as u8), h, l));
+            }
+            store.close_replica(id);
+        }
+        Op::Delete { doc, author: a, key } => {
+            let id = nss[*doc].id();
+            if let Ok(mut r) = store.open_replica(&id) {
+                let _ = block_on(r.delete_prefix(key, &author(*a as u8)));
+            }
+            store.close_replica(id);
+        }
+        Op::Remote { doc, author: a, key, back, content: c } => {
+            let id = nss[*doc].id();
+            let rec = match c {
+                None => iroh_docs::Record::empty(t - back),
+                Some(i) => {
+                    let (h, l) = content(*i);
+                    iroh_docs::Record::new(h, l, t - back)
+                }
+            };
+            let e = SignedEntry::from_parts(&nss[*doc], &author(*a as u8), key, rec);
+            if let Ok(mut r) = store.open_replica(&id) {
+                let _ = block_on(r.insert_remote_entry(e, [1u8; 32], ContentStatus::Complete));
+            }
+            store.close_replica(id);
+        }
+        Op::ImportAuthor(a) => {
+            let _ = store.import_author(author(*a as u8));
+        }
+        Op::ImportDoc(d) => {
+            let _ = store.import_namespace(Capability::Write(nss[*d].clone()));
+        }
+        Op::Policy { doc, n } => {
+            let f: Vec<FilterKind> = (0..*n).map(|i| FilterKind::Prefix(vec![b'a' + i as u8].into())).collect();
+            let _ = store.set_download_policy(&nss[*doc].id(), DownloadPolicy::NothingExcept(f));
+        }
+        Op::Peer { doc, peer } => {
+            let _ = store.register_useful_peer(nss[*doc].id(), [*peer + 1; 32]);
+        }
+        Op::Flush => {
+            let _ = store.flush();
+        }
+        Op::Scan { doc } => {
+            if let Ok(it) = store.get_many(nss[*doc].id(), Query::all()) {
+                let _ = it.count();
+            }
+        }
+        Op::RemoveDoc(d) => {
+            let _ = store.remove_replica(&nss[*d].id());
+        }
+    }
+    iroh_docs::verif::set_clock(0);
+}
+
+#[derive(Clone, Debug, PartialEq, Eq)]
+pub struct Obs {
+    docs: BTreeMap<NamespaceId, Vec<Vec<u8>>>,
+    kinds: BTreeMap<NamespaceId, String>,
+    authors: BTreeSet<[u8; 32]>,
+    policies: BTreeMap<NamespaceId, String>,
+    peers: BTreeMap<NamespaceId, Vec<[u8; 32]>>,
+}
+
+impl Obs {
+    fn brief(&self) -> serde_json::Value {
+        json!({
+            "docs": self.docs.iter().map(|(k, v)| (hex::encode(&k.as_bytes()[..2]), v.iter().map(|b| E::of(&postcard::from_bytes::<SignedEntry>(b).unwrap()).short()).collect::<Vec<_>>())).collect::<BTreeMap<_, _>>(),
+            "namespaces": self.kinds.len(), "authors": self.authors.len(),
+        })
+    }
+}
+
+pub fn observe(store: &mut Store) -> anyhow::Result<Obs> {
+    let ids = [namespace(1).id(), namespace(2).id()];
+    let mut o = Obs { docs: BTreeMap::new(), kinds: BTreeMap::new(), authors: BTreeSet::new(), policies: BTreeMap::new(), peers: BTreeMap::new() };
+    for id in ids {
+        o.docs.insert(id, dump(store, id)?.values().map(|e| postcard::to_stdvec(e).unwrap()).collect());
+        o.policies.insert(id, format!("{:?}", store.get_download_policy(&id)?));
+        o.peers.insert(id, store.get_sync_peers(&id)?.map(|p| p.collect()).unwrap_or_default());
+    }
+    for r in store.list_namespaces()? {
+        let (id, k) = r?;
+        o.kinds.insert(id, format!("{k:?}"));
+    }
+    for a in store.list_authors()? {
+        o.authors.insert(a?.id().to_bytes());
+    }
+    Ok(o)
+}
+
+/// States of the shadow (in-memory instance of the real code) after each operation.
+pub fn shadow_states(ops: &[Op], base: u64) -> Vec<Obs> {
+    let mut s = Store::memory();
+    let mut out = vec![observe(&mut s).expect("observe shadow")];
+    for (i, op) in ops.iter().enumerate() {
+        apply(&mut s, op, base + 10 * (i as u64 + 1));
+        out.push(observe(&mut s).expect("observe shadow"));
+    }
+    out
+}
+
+/// Internal agreement of a reopened store.
+fn coherent(store: &mut Store, o: &Obs) -> Result<(), String> {
+    for (id, entries) in o.docs.iter() {
+        let dm = dump(store, *id).map_err(|e| format!("{e:?}"))?;
+        let _ = entries;
+        // lookups
+        for ((a, k), e) in dm.iter() {
+            let got = store.get_exact(*id, AuthorId::from(a), k, true).map_err(|e| format!("{e:?}"))?;
+            if got.as_ref() != Some(e) {
+                return Err(format!("lookup-disagrees-with-scan: key {}", hex::encode(k)));
+            }
+        }
+        for probe in [&b"zz"[..], &b"a\xff"[..], &b""[..]] {
+            for a in 0..3u8 {
+                let aid = author(a).id();
+                let got = store.get_exact(*id, aid, probe, true).map_err(|e| format!("{e:?}"))?;
+                if got.as_ref() != dm.get(&(aid.to_bytes(), probe.to_vec())) {
+                    return Err("lookup-disagrees-with-scan: absent id".into());
+                }
+            }
+        }
+        // the two query paths
+        let by_key: Vec<SignedEntry> = store
+            .get_many(*id, Query::all().include_empty().sort_by(SortBy::KeyAuthor, SortDirection::Asc))
+            .map_err(|e| format!("{e:?}"))?
+            .collect::<anyhow::Result<_>>()
+            .map_err(|e| format!("{e:?}"))?;
+        let s1: BTreeSet<Vec<u8>> = by_key.iter().map(|e| postcard::to_stdvec(e).unwrap()).collect();
+        let s2: BTreeSet<Vec<u8>> = dm.values().map(|e| postcard::to_stdvec(e).unwrap()).collect();
+        if s1 != s2 || by_key.len() != dm.len() {
+            return Err("query-paths-disagree".into());
+        }
+        // heads
+        let hd = heads(store, *id).map_err(|e| format!("{e:?}"))?;
+        let got: BTreeMap<[u8; 32], u64> = hd.into_iter().map(|(a, (t, _))| (a, t)).collect();
+        if got != (Model { map: dm }).heads() {
+            return Err("heads-disagree-with-entries".into());
+        }
+    }
+    Ok(())
+}
+
+struct Image {
+    path: PathBuf,
+    op_in_progress: Option<usize>, // 1-based index of the op during which it was taken
+    completed: usize,              // number of completed ops
+    last_commit_op: usize,         // F
+    access: Option<usize>,
+}
+
+/// Why is `img` not an allowed state? (signature classifier)
+fn classify(img: &Obs, states: &[Obs], lo: usize, hi: usize, ops: &[Op]) -> String {
+    let d0 = namespace(1).id();
+    let set = |o: &Obs| -> BTreeSet<Vec<u8>> { o.docs.values().flatten().cloned().collect() };
+    let _ = d0;
+    let got = set(img);
+    // split of the operation in progress?
+    if hi >= 1 && hi <= ops.len() {
+        let before = set(&states[hi - 1]);
+        let after = set(&states[hi]);
+        let written: BTreeSet<_> = after.difference(&before).cloned().collect();
+        let pruned: BTreeSet<_> = before.difference(&after).cloned().collect();
+        let kind = match &ops[hi - 1] {
+            Op::Insert { .. } => "insert",
+            Op::Delete { .. } => "delete",
+            Op::Remote { .. } => "remote-insert",
+            Op::RemoveDoc(_) => "remove-document",
+            _ => "other",
+        };
+        if !pruned.is_empty() && !written.is_empty() {
+            let without_pruned: BTreeSet<_> = before.difference(&pruned).cloned().collect();
+            if got == without_pruned {
+                return format!("autocommit-split:op={kind}:between=prune|write");
+            }
+            let with_both: BTreeSet<_> = before.union(&written).cloned().collect();
+            if got == with_both {
+                return format!("autocommit-split:op={kind}:between=write|prune");
+            }
+        }
+        if got != before && got != after && got.is_subset(&before.union(&after).cloned().collect()) {
+            return format!("half-applied:op={kind}");
+        }
+    }
+    // durable entry missing without durable superseder
+    let durable = set(&states[lo]);
+    if !durable.is_subset(&got) {
+        let later: BTreeSet<Vec<u8>> = states[lo..=hi.min(states.len() - 1)].iter().flat_map(set).collect();
+        if durable.difference(&got).any(|e| later.contains(e)) {
+            return "lost-durable-entry".into();
+        }
+    }
+    if img.docs == states[hi.min(states.len() - 1)].docs || states[lo..=hi.min(states.len() - 1)].iter().any(|s| s.docs == img.docs) {
+        return "entries-ok-but-other-tables-differ".into();
+    }
+    "not-a-passed-through-state".into()
+}
+
+fn check_image(ctx: &mut Ctx, case: u64, img: &Image, states: &[Obs], ops: &[Op], how: &str) -> bool {
+    ctx.count(&format!("images[{how}]"), 1);
+    let lo = img.last_commit_op;
+    let hi = img.op_in_progress.unwrap_or(img.completed);
+    let detail = |extra: serde_json::Value| {
+        json!({"how": how, "during_op": img.op_in_progress.map(|i| format!("{:?}", ops[i - 1])), "access": img.access, "completed_ops": img.completed, "last_commit_at_op": lo,
+            "ops": ops.iter().enumerate().map(|(i, o)| format!("{}: {:?}", i + 1, o)).collect::<Vec<_>>(), "extra": extra})
+    };
+    let mut store = match Store::persistent(&img.path) {
+        Ok(s) => s,
+        Err(e) => {
+            ctx.violation(case, "reopen-failed", detail(json!(format!("{e:?}"))));
+            return false;
+        }
+    };
+    let obs = match observe(&mut store) {
+        Ok(o) => o,
+        Err(e) => {
+            ctx.violation(case, "reopen-failed", detail(json!(format!("observe: {e:?}"))));
+            return false;
+        }
+    };
+    let matched = (lo..=hi).find(|j| states[*j] == obs);
+    match matched {
+        Some(j) => {
+            ctx.distinct("image_positions", ((hi - j) as u64) << 8 | (hi - lo).min(255) as u64);
+            if j < hi {
+                ctx.count("images_showing_an_older_state", 1);
+            }
+        }
+        None => {
+            let sig = classify(&obs, states, lo, hi, ops);
+            ctx.violation(case, &sig, detail(json!({"image": obs.brief(), "allowed_first": states[lo].brief(), "allowed_last": states[hi].brief()})));
+            return false;
+        }
+    }
+    if let Err(why) = coherent(&mut store, &obs) {
+        ctx.violation(case, &format!("reopened-store-incoherent:{}", why.split(':').next().unwrap_or("")), detail(json!(why)));
+        return false;
+    }
+    drop(store);
+    let _ = std::fs::remove_file(&img.path);
+    true
+}
+
+pub fn run(ctx: &mut Ctx) {
+    let mode = ctx.mode.clone().unwrap_or_else(|| "images".into());
+    if mode == "kill" {
+        return run_kill(ctx);
+    }
+    let scratch = Scratch::new();
+    for case in ctx.cases(60, 6_000) {
+        let mut rng = ctx.rng(case);
+        let n = rng.range(6, 25);
+        let ops = gen_history(&mut rng, n);
+        let base = crate::gen::t0();
+        let states = shadow_states(&ops, base);
+        ctx.eval();
+        let prunes = (1..states.len()).filter(|i| {
+            let b: BTreeSet<_> = states[i - 1].docs.values().flatten().collect();
+            let a: BTreeSet<_> = states[*i].docs.values().flatten().collect();
+            b.difference(&a).next().is_some() && a.difference(&b).next().is_some()
+        }).count();
+        if prunes > 0 {
+            ctx.nontrivial(h64(format!("{ops:?}").as_bytes()));
+            ctx.count("operations_that_prune_and_write", prunes as u64);
+        }
+        if ctx.want_sample() {
+            ctx.sample(json!({"case": case, "ops": ops.iter().map(|o| format!("{o:?}")).collect::<Vec<_>>()}));
+        }
+        // ---- 1. an image after every call
+        {
+            let path = scratch.path("live");
+            let mut store = Store::persistent(&path).expect("create");
+            let mut last_commit = 0;
+            for (i, op) in ops.iter().enumerate() {
+                apply(&mut store, op, base + 10 * (i as u64 + 1));
+                if op.commits() {
+                    last_commit = i + 1;
+                }
+                let ipath = scratch.path("img");
+                std::fs::copy(&path, &ipath).expect("copy image");
+                let img = Image { path: ipath, op_in_progress: None, completed: i + 1, last_commit_op: last_commit, access: None };
+                if !check_image(ctx, case, &img, &states, &ops, "after-call") {
+                    break;
+                }
+            }
+            drop(store);
+            let _ = std::fs::remove_file(&path);
+        }
+        // ---- 2. the age-based commit at every internal access point of every operation
+        for placement in ["every-access", "single-access"] {
+            let path = scratch.path("aged");
+            let mut store = Store::persistent(&path).expect("create");
+            let images: Arc<Mutex<Vec<(PathBuf, usize)>>> = Default::default();
+            let cur_op: Arc<Mutex<usize>> = Arc::new(Mutex::new(0));
+            let single_target: Option<(usize, usize)> = if placement == "single-access" { Some((rng.range(1, ops.len()), rng.below(5))) } else { None };
+            let first_access = Arc::new(Mutex::new(0usize));
+            {
+                let images = images.clone();
+                let db = path.clone();
+                let dir = scratch.dir.path().to_path_buf();
+                let cur_op = cur_op.clone();
+                let first_access = first_access.clone();
+                let counter = Arc::new(Mutex::new(0usize));
+                iroh_docs::verif::set_access_callback(Some(Box::new(move |n| {
+                    let op = *cur_op.lock().unwrap();
+                    if op == 0 {
+                        return;
+                    }
+                    let within = n - *first_access.lock().unwrap();
+                    let take = match single_target {
+                        None => true,
+                        Some((o, p)) => o == op && p == within,
+                    };
+                    if take {
+                        let mut c = counter.lock().unwrap();
+                        *c += 1;
+                        let ipath = dir.join(format!("acc-{}-{}.redb", n, *c));
+                        if std::fs::copy(&db, &ipath).is_ok() {
+                            images.lock().unwrap().push((ipath, within));
+                        }
+                    }
+                    match single_target {
+                        None => iroh_docs::verif::age_transaction_at(n + 1),
+                        Some((o, p)) => {
+                            if o == op && within + 1 == p {
+                                iroh_docs::verif::age_transaction_at(n + 1)
+                            }
+                        }
+                    }
+                })));
+            }
+            let mut last_commit = 0;
+            let mut ok = true;
+            for (i, op) in ops.iter().enumerate() {
+                *cur_op.lock().unwrap() = i + 1;
+                let start = iroh_docs::verif::store_accesses();
+                *first_access.lock().unwrap() = start;
+                match single_target {
+                    None => iroh_docs::verif::age_transaction_at(start),
+                    Some((o, 0)) if o == i + 1 => iroh_docs::verif::age_transaction_at(start),
+                    _ => {}
+                }
+                apply(&mut store, op, base + 10 * (i as u64 + 1));
+                *cur_op.lock().unwrap() = 0;
+                iroh_docs::verif::age_transaction_at(usize::MAX);
+                let taken: Vec<(PathBuf, usize)> = std::mem::take(&mut *images.lock().unwrap());
+                ctx.distinct("accesses_per_operation", (iroh_docs::verif::store_accesses() - start) as u64);
+                for (ipath, within) in taken {
+                    let img = Image { path: ipath, op_in_progress: Some(i + 1), completed: i, last_commit_op: last_commit, access: Some(within) };
+                    if ok && !check_image(ctx, case, &img, &states, &ops, placement) {
+                        ok = false;
+                    } else {
+                        let _ = std::fs::remove_file(&img.path);
+                    }
+                    // an automatic commit happened at this access: everything before it is durable
+                }
+                if placement == "every-access" || op.commits() {
+                    // with a commit at every access, all completed operations are durable
+                    last_commit = if op.commits() { i + 1 } else { i };
+                }
+                if !ok {
+                    break;
+                }
+            }
+            iroh_docs::verif::set_access_callback(None);
+            iroh_docs::verif::age_transaction_at(usize::MAX);
+            drop(store);
+            let _ = std::fs::remove_file(&path);
+        }
+    }
+}
+
+// ---------------------------------------------------------------------------------------------
+// real process kills
+
+fn kill_history(seed: u64) -> Vec<Op> {
+    let mut rng = Rng::from_parts(&[seed, 0xC06]);
+    gen_history(&mut rng, 400)
+}
+
+/// Child process: run the history on the file, logging progress with unbuffered writes.
+pub fn child_main(mode: &str, seed: u64) {
+    // mode = "<db path>|<log path>|<base>"
+    let parts: Vec<&str> = mode.split('|').collect();
+    let (db, logp, base) = (parts[0], parts[1], parts[2].parse::<u64>().unwrap());
+    let ops = kill_history(seed);
+    let mut log = std::fs::OpenOptions::new().create(true).append(true).open(logp).unwrap();
+    let mut store = Store::persistent(db).unwrap();
+    let _ = log.write_all(b"ready\n");
+    for (i, op) in ops.iter().enumerate() {
+        let _ = log.write_all(format!("s{}\n", i + 1).as_bytes());
+        apply(&mut store, op, base + 10 * (i as u64 + 1));
+        let _ = log.write_all(format!("{}{}\n", if op.commits() { "f" } else { "d" }, i + 1).as_bytes());
+        if i % 16 == 0 {
+            std::thread::sleep(std::time::Duration::from_micros(300));
+        }
+    }
+    let _ = log.write_all(b"end\n");
+    // stay alive until killed, without a clean shutdown
+    std::thread::sleep(std::time::Duration::from_secs(30));
+    std::process::abort();
+}
+
+fn run_kill(ctx: &mut Ctx) {
+    let scratch = Scratch::new();
+    let exe = std::env::current_exe().unwrap();
+    for case in ctx.cases(12, 400) {
+        let mut rng = ctx.rng(case);
+        let seed = rng.next_u64() >> 1;
+        let base = crate::gen::t0();
+        let ops = kill_history(seed);
+        let states = shadow_states(&ops, base);
+        let db = scratch.path("kill");
+        let logp = scratch.dir.path().join(format!("kill-{case}.log"));
+        let mut child = std::process::Command::new(&exe)
+            .args(["C06-child", "--seed", &seed.to_string(), "--mode", &format!("{}|{}|{}", db.display(), logp.display(), base)])
+            .stdout(std::process::Stdio::null())
+            .stderr(std::process::Stdio::null())
+            .spawn()
+            .expect("spawn child");
+        // wait until the child started working, then kill it at a random instant
+        let t0 = std::time::Instant::now();
+        while t0.elapsed().as_secs() < 20 {
+            if std::fs::read_to_string(&logp).map(|s| s.contains("ready")).unwrap_or(false) {
+                break;
+            }
+            std::thread::sleep(std::time::Duration::from_millis(2));
+        }
+        std::thread::sleep(std::time::Duration::from_micros(rng.below(60_000) as u64));
+        unsafe {
+            libc::kill(child.id() as i32, libc::SIGKILL);
+        }
+        let _ = child.wait();
+        ctx.eval();
+        let log = std::fs::read_to_string(&logp).unwrap_or_default();
+        let mut started = 0;
+        let mut flushed = 0;
+        let mut done = 0;
+        for l in log.lines() {
+            if let Some(n) = l.strip_prefix('s') {
+                started = n.parse().unwrap_or(started);
+            } else if let Some(n) = l.strip_prefix('f') {
+                flushed = n.parse().unwrap_or(flushed);
+                done = flushed.max(done);
+            } else if let Some(n) = l.strip_prefix('d') {
+                done = n.parse().unwrap_or(done);
+            }
+        }
+        if !log.contains("ready") {
+            ctx.harness_error("kill child never became ready");
+            continue;
+        }
+        ctx.count("processes_killed", 1);
+        if started > done {
+            ctx.count("killed_inside_an_operation", 1);
+        }
+        ctx.distinct("kill_points", started as u64);
+        if started > 0 && !log.contains("end") {
+            ctx.nontrivial(h64(format!("{seed}:{started}").as_bytes()));
+        }
+        let img = Image { path: db.clone(), op_in_progress: if started > done { Some(started) } else { None }, completed: done, last_commit_op: flushed, access: None };
+        check_image(ctx, case, &img, &states, &ops, "sigkill");
+        if ctx.want_sample() {
+            ctx.sample(json!({"case": case, "mode": "kill", "ops_started": started, "ops_done": done, "last_flush_at": flushed}));
+        }
+        let _ = std::fs::remove_file(&db);
+        let _ = std::fs::remove_file(&logp);
+    }
+}
